@@ -525,9 +525,9 @@ class PlainCtx:
     def check(self, name, ok, clause="", detail="", witness=None, backend=None):
         """record one (ground or bounded) obligation"""
         kind = self.spec.kind
-        st = ("proved" if kind == "G" else "held") if ok else "refuted"
+        st = ("proved" if kind in ("G", "P") else "held") if ok else "refuted"
         self.results.append(mk_result("%s/%s" % (self.spec.name, name), clause, kind, st,
-                                      backend or ("ground-eval" if kind == "G" else "runtime-contract"), 0.0,
+                                      backend or ("ground-eval" if kind in ("G", "P") else "runtime-contract"), 0.0,
                                       "" if ok else detail, witness=None if ok else witness))
 
     def count(self, key=None, sample=None):
